@@ -70,7 +70,7 @@ class Driver:
         self.step_no = 0
         self.prev_state = None
 
-    def build(self, prog, crash=None, versions=None, probe=None, on_query=None):
+    def build(self, prog, crash=None, versions=None, probe=None, on_query=None, behaviour=None):
         """One build step.  Returns (impl, ref) outcomes, each ('ok', value) or
         ('exc', exception)."""
         w = self.w
@@ -78,6 +78,7 @@ class Driver:
         si = Side(w, w.fs, False, prog)
         sr = Side(w, w.ref, True, prog)
         si.crash = sr.crash = crash
+        si.behaviour = sr.behaviour = behaviour
         if probe is not None:
             si.probe = lambda b, where: probe('impl', b, where)
             sr.probe = lambda b, where: probe('ref', b, where)
